@@ -364,10 +364,13 @@ package kcp
 // end just before rcv_nxt - released strictly in order, none twice, none skipped.
 //@ pred (kcp *KCP) rcvQ() = forall i int :: 0 <= i && i < kcp.rcv_queue.rlen() ==> kcp.rcv_queue.at(i).sn == subu32(kcp.rcv_nxt, kcp.rcv_queue.rlen() - i)
 //
+//@ pred (kcp *KCP) inWin(sn uint32) = itimediff(sn, old(kcp.rcv_nxt)) >= 0 && itimediff(sn, addu32(old(kcp.rcv_nxt), old(kcp.rcv_wnd))) < 0
 //@ func KCP.parse_data
 //@   ensures @C01 [receive-queue-in-sequence-order] old(kcp.rcvQ()) ==> kcp.rcvQ()
 //@   ensures @C01 [stale-or-out-of-window-segment-is-dropped] (itimediff(newseg.sn, old(kcp.rcv_nxt)) < 0 || itimediff(newseg.sn, addu32(old(kcp.rcv_nxt), old(kcp.rcv_wnd))) >= 0)
 //@        ==> kcp.rcv_nxt == old(kcp.rcv_nxt) && kcp.rcv_queue.rlen() == old(kcp.rcv_queue.rlen()) && len(kcp.rcv_buf.segments) == old(len(kcp.rcv_buf.segments))
+//@   ensures @C01 [a-new-segment-inside-the-window-is-kept] kcp.inWin(newseg.sn) ==> in(kcp.rcv_buf.marks, newseg.sn) || itimediff(kcp.rcv_nxt, newseg.sn) > 0
+//@   loop 1 invariant @C01 kcp.inWin(newseg.sn) ==> in(kcp.rcv_buf.marks, newseg.sn) || itimediff(kcp.rcv_nxt, newseg.sn) > 0
 //@   ensures @C01 [release-only-advances] itimediff(kcp.rcv_nxt, old(kcp.rcv_nxt)) >= 0 && kcp.rcv_queue.rlen() - old(kcp.rcv_queue.rlen()) == itimediff(kcp.rcv_nxt, old(kcp.rcv_nxt))
 //@   requires kcp.wfR() && kcp.wfW() && kcp.wfH() && len(newseg.data) <= 1500
 //@   modifies kcp.rcv_nxt, all(kcp.rcv_queue), kcp.rcv_queue.elements[..], all(kcp.rcv_buf), kcp.rcv_buf.segments[..], mapof(kcp.rcv_buf.marks)
